@@ -223,8 +223,160 @@ func (w *World) factsAtK(at ssa.Instruction, kill bool) []Fact {
 			}
 		}
 	}
+	out = append(out, w.expandSummaries(out, 0)...)
 	sort.Slice(out, func(i, j int) bool { return out[i].Expr < out[j].Expr })
 	return out
+}
+
+// expandSummaries: a fact `helper(args) == nil` (error helper) or `helper(args) == true/false`
+// (boolean helper) about a module function implies every fact that holds on all of the helper's
+// returns of that class, with the helper's parameters replaced by the call's arguments.  This is
+// what makes a guard keep counting when it is moved into (or out of) a small helper.
+func (w *World) expandSummaries(fs []Fact, depth int) []Fact {
+	if depth > 1 {
+		return nil
+	}
+	var out []Fact
+	seen := map[string]bool{}
+	for _, f := range fs {
+		seen[f.Expr] = true
+	}
+	for _, f := range fs {
+		for _, c := range f.calls {
+			callee := c.Call.StaticCallee()
+			if callee == nil || !inModule(callee) || callee.Blocks == nil || len(callee.Blocks) > 12 {
+				continue
+			}
+			rc := render(c)
+			class := ""
+			switch f.Expr {
+			case rc + " == nil":
+				class = "nil"
+			case rc + " == true":
+				class = "true"
+			case rc + " == false":
+				class = "false"
+			default:
+				continue
+			}
+			sum := w.returnSummary(callee, class)
+			for _, e := range sum {
+				x := e
+				for i, p := range callee.Params {
+					if i < len(c.Call.Args) {
+						x = replaceIdent(x, p.Name(), render(c.Call.Args[i]))
+					}
+				}
+				if !seen[x] {
+					seen[x] = true
+					out = append(out, Fact{Expr: x, If: f.If, loads: f.loads, calls: f.calls})
+				}
+			}
+		}
+	}
+	return out
+}
+
+// returnSummary: facts (over the callee's own parameter names) common to all returns of the class.
+func (w *World) returnSummary(fn *ssa.Function, class string) []string {
+	key := fn.String() + "/" + class
+	if w.sumCache == nil {
+		w.sumCache = map[string][]string{}
+	}
+	if v, ok := w.sumCache[key]; ok {
+		return v
+	}
+	w.sumCache[key] = nil // recursion guard
+	var common map[string]bool
+	for _, r := range returns(fn) {
+		if len(r.Results) == 0 {
+			continue
+		}
+		res := r.Results[len(r.Results)-1]
+		if class != "nil" {
+			res = r.Results[0]
+		}
+		match := false
+		switch class {
+		case "nil":
+			match = isNilConst(res) && isErrorType(res.Type())
+		case "true":
+			match = isConstBool(res, true)
+		case "false":
+			match = isConstBool(res, false)
+		}
+		if !match {
+			if class == "nil" && isErrorType(res.Type()) && !isNilConst(res) {
+				continue // an error return
+			}
+			if class != "nil" {
+				if _, isC := constOf(res); !isC {
+					// computed boolean: a single `return a <op> b` is handled by expandBoolHelpers
+					w.sumCache[key] = nil
+					return nil
+				}
+				continue
+			}
+			continue
+		}
+		fs := map[string]bool{}
+		for _, f := range w.factsAtK(r, true) {
+			// only facts about parameters/constants travel to the caller
+			if mentionsOnlyParams(f.Expr, fn) {
+				fs[f.Expr] = true
+			}
+		}
+		if common == nil {
+			common = fs
+		} else {
+			for k := range common {
+				if !fs[k] {
+					delete(common, k)
+				}
+			}
+		}
+	}
+	var out []string
+	for k := range common {
+		out = append(out, k)
+	}
+	sort.Strings(out)
+	w.sumCache[key] = out
+	return out
+}
+
+// mentionsOnlyParams: every identifier root in the expression is a parameter name, `len`, or a literal.
+func mentionsOnlyParams(expr string, fn *ssa.Function) bool {
+	names := map[string]bool{"len": true, "nil": true, "true": true, "false": true}
+	for _, p := range fn.Params {
+		names[p.Name()] = true
+	}
+	i := 0
+	for i < len(expr) {
+		c := expr[i]
+		if c == '_' || c >= 'a' && c <= 'z' || c >= 'A' && c <= 'Z' {
+			j := i
+			for j < len(expr) && isIdentChar(expr[j]) {
+				j++
+			}
+			id := expr[i:j]
+			// field / method selectors after a dot are fine
+			if i > 0 && expr[i-1] == '.' {
+				i = j
+				continue
+			}
+			if !names[id] {
+				return false
+			}
+			i = j
+			continue
+		}
+		if c >= 0x80 {
+			return false
+		}
+		i++
+	}
+	return true
 }
 
 func factStrings(fs []Fact) []string {
